@@ -573,25 +573,25 @@ dexkv_matches_p(const_dexkv_t dkv, struct dt_dt_s d)
 	default:
 		return false;
 	}
-	/* now do the actual comparison */
+	/* now do the actual comparison, the line's value is the left operand */
 	switch (dkv->op) {
 	case OP_EQ:
-		res = dkv->s == cmp;
+		res = cmp == dkv->s;
 		break;
 	case OP_LT:
-		res = dkv->s < cmp;
+		res = cmp < dkv->s;
 		break;
 	case OP_LE:
-		res = dkv->s <= cmp;
+		res = cmp <= dkv->s;
 		break;
 	case OP_GT:
-		res = dkv->s > cmp;
+		res = cmp > dkv->s;
 		break;
 	case OP_GE:
-		res = dkv->s >= cmp;
+		res = cmp >= dkv->s;
 		break;
 	case OP_NE:
-		res = dkv->s != cmp;
+		res = cmp != dkv->s;
 		break;
 	case OP_TRUE:
 		res = true;
